@@ -187,7 +187,7 @@ def main():
         "checks": checks,
         "notes": (
             "All checks are static (python ast over /repo/geoh5py, parsed on every run). Rules decide on normalised code (DESIGN.md §11) and are "
-            "tested both ways: 1371 mutants incl. the 173 reportable of 180 red-team seeds (3 rounds) must be reported, 925 twins incl. 140 kept behaviour-preserving refactorings must stay silent (DESIGN.md §13.5). "
+            "tested both ways: 1487 mutants incl. the 173 reportable of 180 red-team seeds (3 rounds) must be reported, 1090 twins incl. 200 kept behaviour-preserving refactorings (3 batches) must stay silent; a vacuity monitor (tools/instances_drift.py) accounts for every drop of evaluated sites under a refactoring (DESIGN.md §14). "
             "Exit 0 = held (KNOWN-FINDING lines for "
             "recorded genuine defects, /verif/known_findings.json), 1 = VIOLATION, 2 = ANALYSIS-ERROR (anchor lost / floor not met). "
             "Repairs of genuine defects in /repo are separate 'fix:' commits: " + "; ".join(commits)
